@@ -57,13 +57,19 @@ def gen_case(rng):
 
 def text_of(case, target='GULP'):
     suf = {'r': {'nr': 'nr', 'dr': 'dr', 'cutoff': 'cutoff'}, 'rho': {'nr': 'nrho', 'dr': 'drho', 'cutoff': 'cutoff_rho'}}[case['grid']]
-    t = '[Tabulation]\ntarget : %s\n' % target + ''.join('%s : %s\n' % (suf[k], v) for k, v in case['vals'].items())
+    t = '[Tabulation]\ntarget : %s\n' % target + ''.join('%s : %s\n' % (suf[k], v) for k, v in case['vals'].items() if k not in case.get('added', ()))
     return t
+
+def added_items(case):
+    """options of the case that arrive as added items (`--add-item Tabulation:dr=..`) instead of lines of the file"""
+    from atsim.potentials.config import ConfigParserOverrideTuple as O
+    suf = {'r': {'nr': 'nr', 'dr': 'dr', 'cutoff': 'cutoff'}, 'rho': {'nr': 'nrho', 'dr': 'drho', 'cutoff': 'cutoff_rho'}}[case['grid']]
+    return [O('Tabulation', suf[k], case['vals'][k]) for k in case.get('added', ())]
 
 def run_impl(case):
     from atsim.potentials.config import ConfigParser
     def f():
-        cp = ConfigParser(io.StringIO(text_of(case)))
+        cp = ConfigParser(io.StringIO(text_of(case)), additional=added_items(case)) if case.get('added') else ConfigParser(io.StringIO(text_of(case)))
         t = cp.tabulation
         return (t.nr, t.cutoff) if case['grid'] == 'r' else (t.nrho, t.cutoff_rho)
     return sc.classify(f)
@@ -272,6 +278,13 @@ def search_cases(rng, n):
     yield {'defaults_after': 'nosection'}
     yield {'defaults_after': 'emptysection'}
     yield {'defaults_after': 'dlpoly_default'}
+    # twelfth round: the options count the same whether they are lines of the file or added items (--add-item Tabulation:dr=..)
+    for grid in ('r', 'rho'):
+        for added in (['dr'], ['nr'], ['cutoff'], ['dr', 'cutoff']):
+            yield {'grid': grid, 'vals': {'nr': '11', 'cutoff': '5.0', 'dr': '0.25'}, 'added': added}         # all three: refused
+        yield {'grid': grid, 'vals': {'nr': '11', 'cutoff': '5.0'}, 'added': ['cutoff']}
+        yield {'grid': grid, 'vals': {'cutoff': '5.0', 'dr': '0.25'}, 'added': ['dr']}
+        yield {'grid': grid, 'vals': {'nr': '11', 'dr': '0.25'}, 'added': ['nr', 'dr']}
     for _ in range(n): yield gen_case(rng)
 def finding_for(case, fails): return None
 def replay_finding(f): return False
